@@ -818,6 +818,7 @@ func oracleDecode(r *report, g *G, n int, single string, bounded bool) {
 	if bounded {
 		oracleAlloc(r, g)
 		bigFrameStreams(r, g, true)
+		strayStreams(r, g, 25) // a packet must not grow after it was returned
 	}
 	// a remaining length that never ends, or ends after 5..11 bytes with any last byte: the
 	// header reader must give up after five bytes (C05) and must not panic on the value (C04)
@@ -1222,6 +1223,46 @@ func strayStreams(r *report, g *G, rounds int) {
 		}
 		all = append(all, 0xc0, 0)
 		checkSequenceBytes(r, g, all, "")
+		// the same stream read by successive calls on ONE goroutine (whatever a decoder recycles
+		// per processor is then handed from one call to the next), several times over
+		res, ok := runWithWatchdog(func() (out string) {
+			defer func() {
+				if e := recover(); e != nil {
+					out = "PANIC " + fmt.Sprint(e)
+				}
+			}()
+			for rep := 0; rep < 6; rep++ {
+				rd := bytes.NewReader(all)
+				var pkts []mq.Packet
+				var snaps []string
+				for {
+					p, err := mq.ReadPacket(rd)
+					if err != nil {
+						break
+					}
+					pkts = append(pkts, p)
+					snaps = append(snaps, snapshot(p)+" "+encS(p))
+					for j, q := range pkts {
+						if now := snapshot(q) + " " + encS(q); now != snaps[j] {
+							return fmt.Sprintf("the packet returned by call %d changed during call %d: %s, was %s", j, len(pkts)-1, trunc(now), trunc(snaps[j]))
+						}
+						if l := countLists(q); kindOf(q) == 3 && l > len(pub) {
+							return fmt.Sprintf("LISTS %d > %d bytes", l, len(pub))
+						}
+					}
+				}
+			}
+			return ""
+		})
+		if !ok {
+			r.fail("decode-timeout", "R 8 "+hexs(all), "ReadPacket did not return")
+			r.finish()
+			os.Exit(1)
+		}
+		if res != "" {
+			r.fail("sequence-result", "R 8 "+hexs(all), res)
+		}
+		r.eval("stray-stream-one-goroutine", true, "")
 	}
 }
 
